@@ -4,6 +4,8 @@ neighbour table (`nbr_involutive` is used by the conservation proofs of other pr
 -/
 import Mathlib.Tactic.Ring
 import Mathlib.Tactic.Linarith
+import Mathlib.Tactic.Tauto
+import Mathlib.Tactic.SplitIfs
 import Strengths.Model.GridGraph
 
 namespace Strengths
@@ -383,5 +385,122 @@ theorem dirDeltaOn_single : ∀ n < 6,
 
 /-- every (axis, ±1) is a direction of the switch -/
 theorem dir_exists : ∀ a < 3, ∀ s : Bool, ∃ n < 6, dirAxisDelta n = (a, if s then 1 else -1) := by decide +kernel
+
+/-! ### what one `axisStep` reaches -/
+
+theorem axisStep_plus_iff {per : Bool} {n a b : Int} (ha : 0 ≤ a ∧ a < n) :
+    axisStep per n a 1 = some b ↔ ((b = a + 1 ∧ b < n) ∨ (per = true ∧ a = n - 1 ∧ b = 0)) := by
+  unfold axisStep
+  cases per
+  · simp only [Bool.false_eq_true, if_false, false_and, or_false]
+    split
+    · simp only [Option.some.injEq]; omega
+    · simp only [reduceCtorEq, false_iff]; omega
+  · simp only [if_true, true_and, Option.some.injEq, wrap_succ ha.1 ha.2]
+    split <;> omega
+
+theorem axisStep_minus_iff {per : Bool} {n a b : Int} (ha : 0 ≤ a ∧ a < n) :
+    axisStep per n a (-1) = some b ↔ ((a = b + 1 ∧ 0 ≤ b) ∨ (per = true ∧ a = 0 ∧ b = n - 1)) := by
+  unfold axisStep
+  cases per
+  · simp only [Bool.false_eq_true, if_false, false_and, or_false]
+    split
+    · simp only [Option.some.injEq]; omega
+    · simp only [reduceCtorEq, false_iff]; omega
+  · simp only [if_true, true_and, Option.some.injEq, show a + -1 = a - 1 by ring, wrap_pred ha.1 ha.2]
+    split <;> omega
+
+theorem axisStep_zero_iff {per : Bool} {n a b : Int} (ha : 0 ≤ a ∧ a < n) :
+    axisStep per n a 0 = some b ↔ a = b := by
+  rw [axisStep_zero ha.1 ha.2]; simp
+
+/-- coordinates of a cell index -/
+def cellCoords (g : GridShape) (i : Int) : Int × Int × Int := (i % g.w, i % (g.w * g.h) / g.w, i / (g.w * g.h))
+
+theorem cellCoords_range {g : GridShape} (hv : g.valid = true) {i : Nat} (hi : i < g.size) :
+    (0 ≤ (cellCoords g i).1 ∧ (cellCoords g i).1 < g.w) ∧ (0 ≤ (cellCoords g i).2.1 ∧ (cellCoords g i).2.1 < g.h) ∧
+    (0 ≤ (cellCoords g i).2.2 ∧ (cellCoords g i).2.2 < g.d) ∧
+    (cellCoords g i).1 + (cellCoords g i).2.1 * g.w + (cellCoords g i).2.2 * (g.w * g.h) = i := by
+  obtain ⟨hw, hh, hd⟩ := GridShape.valid_pos hv
+  have hi0 : (0 : Int) ≤ i := Int.natCast_nonneg i
+  have hi1 : (i : Int) < (g.w : Int) * g.h * g.d := by rw [← size_cast]; exact_mod_cast hi
+  exact encode_decode hw hh hi0 hi1
+
+/-- a slot of the engine's table holds `j` iff every axis steps from `i`'s coordinate to `j`'s -/
+theorem engNbr_iff_steps {g : GridShape} (hv : g.valid = true) {i j n : Nat} (hi : i < g.size) (hj : j < g.size) (hn : n < 6) :
+    engNbr? g i n = some j ↔
+      axisStep g.px g.w (cellCoords g i).1 (dirDeltaOn n 0) = some (cellCoords g j).1 ∧
+      axisStep g.py g.h (cellCoords g i).2.1 (dirDeltaOn n 1) = some (cellCoords g j).2.1 ∧
+      axisStep g.pz g.d (cellCoords g i).2.2 (dirDeltaOn n 2) = some (cellCoords g j).2.2 := by
+  obtain ⟨hw, hh, hd⟩ := GridShape.valid_pos hv
+  obtain ⟨hx, hy, hz, hsum⟩ := cellCoords_range hv hi
+  obtain ⟨jx, jy, jz, jsum⟩ := cellCoords_range hv hj
+  constructor
+  · intro h
+    obtain ⟨a, b, c, sa, sb, sc, ra, rb, rc, hjc⟩ := engNbr_some hv hi hn h
+    obtain ⟨d1, d2, d3⟩ := decode_encode (z := c) hw ra.1 ra.2 rb.1 rb.2
+    simp only [cellCoords] at *
+    rw [hjc, d1, d2, d3]
+    exact ⟨sa, sb, sc⟩
+  · rintro ⟨sa, sb, sc⟩
+    obtain ⟨mx, my, mz⟩ := mesh_coords hv i
+    unfold engNbr?
+    simp only [cellCoords] at *
+    simp only [engNeighbor, mx, my, mz]
+    rw [engNeighborOfCoords_eq g n hn hx hy hz, sa, sb, sc]
+    simp only [jsum]
+    have : ¬ (((j : Int) == nbrNone || (j : Int) < 0) = true) := by simp [nbrNone]
+    rw [if_neg this]
+    simp
+
+/-- cell `c2` is what lies behind face `n` of cell `c1` (faces: 0 = +x, 1 = −x, 2 = +y, 3 = −y, 4 = +z, 5 = −z):
+one step along the axis, or around a periodic axis; the other two coordinates equal -/
+def reach (g : GridShape) (n : Nat) (c1 c2 : Int × Int × Int) : Prop :=
+  match n with
+  | 0 => ((c2.1 = c1.1 + 1 ∧ c2.1 < g.w) ∨ (g.px = true ∧ c1.1 = g.w - 1 ∧ c2.1 = 0)) ∧ c1.2.1 = c2.2.1 ∧ c1.2.2 = c2.2.2
+  | 1 => ((c1.1 = c2.1 + 1 ∧ 0 ≤ c2.1) ∨ (g.px = true ∧ c1.1 = 0 ∧ c2.1 = g.w - 1)) ∧ c1.2.1 = c2.2.1 ∧ c1.2.2 = c2.2.2
+  | 2 => c1.1 = c2.1 ∧ ((c2.2.1 = c1.2.1 + 1 ∧ c2.2.1 < g.h) ∨ (g.py = true ∧ c1.2.1 = g.h - 1 ∧ c2.2.1 = 0)) ∧ c1.2.2 = c2.2.2
+  | 3 => c1.1 = c2.1 ∧ ((c1.2.1 = c2.2.1 + 1 ∧ 0 ≤ c2.2.1) ∨ (g.py = true ∧ c1.2.1 = 0 ∧ c2.2.1 = g.h - 1)) ∧ c1.2.2 = c2.2.2
+  | 4 => c1.1 = c2.1 ∧ c1.2.1 = c2.2.1 ∧ ((c2.2.2 = c1.2.2 + 1 ∧ c2.2.2 < g.d) ∨ (g.pz = true ∧ c1.2.2 = g.d - 1 ∧ c2.2.2 = 0))
+  | 5 => c1.1 = c2.1 ∧ c1.2.1 = c2.2.1 ∧ ((c1.2.2 = c2.2.2 + 1 ∧ 0 ≤ c2.2.2) ∨ (g.pz = true ∧ c1.2.2 = 0 ∧ c2.2.2 = g.d - 1))
+  | _ => False
+
+instance (g : GridShape) (n : Nat) (c1 c2 : Int × Int × Int) : Decidable (reach g n c1 c2) := by
+  unfold reach; split <;> infer_instance
+
+theorem dirDeltaOn_table :
+    dirDeltaOn 0 0 = 1 ∧ dirDeltaOn 0 1 = 0 ∧ dirDeltaOn 0 2 = 0 ∧ dirDeltaOn 1 0 = -1 ∧ dirDeltaOn 1 1 = 0 ∧ dirDeltaOn 1 2 = 0 ∧
+    dirDeltaOn 2 0 = 0 ∧ dirDeltaOn 2 1 = 1 ∧ dirDeltaOn 2 2 = 0 ∧ dirDeltaOn 3 0 = 0 ∧ dirDeltaOn 3 1 = -1 ∧ dirDeltaOn 3 2 = 0 ∧
+    dirDeltaOn 4 0 = 0 ∧ dirDeltaOn 4 1 = 0 ∧ dirDeltaOn 4 2 = 1 ∧ dirDeltaOn 5 0 = 0 ∧ dirDeltaOn 5 1 = 0 ∧ dirDeltaOn 5 2 = -1 := by
+  decide +kernel
+
+/-- slot `n` of cell `i` in the engine's table holds `j` iff `j` lies behind face `n` of `i` -/
+theorem engNbr_iff_reach {g : GridShape} (hv : g.valid = true) {i j n : Nat} (hi : i < g.size) (hj : j < g.size) (hn : n < 6) :
+    engNbr? g i n = some j ↔ reach g n (cellCoords g i) (cellCoords g j) := by
+  rw [engNbr_iff_steps hv hi hj hn]
+  obtain ⟨hx, hy, hz, _⟩ := cellCoords_range hv hi
+  obtain ⟨t00, t01, t02, t10, t11, t12, t20, t21, t22, t30, t31, t32, t40, t41, t42, t50, t51, t52⟩ := dirDeltaOn_table
+  have h6 : n = 0 ∨ n = 1 ∨ n = 2 ∨ n = 3 ∨ n = 4 ∨ n = 5 := by omega
+  rcases h6 with rfl | rfl | rfl | rfl | rfl | rfl
+  · rw [t00, t01, t02, axisStep_plus_iff hx, axisStep_zero_iff hy, axisStep_zero_iff hz]; rfl
+  · rw [t10, t11, t12, axisStep_minus_iff hx, axisStep_zero_iff hy, axisStep_zero_iff hz]; rfl
+  · rw [t20, t21, t22, axisStep_zero_iff hx, axisStep_plus_iff hy, axisStep_zero_iff hz]; rfl
+  · rw [t30, t31, t32, axisStep_zero_iff hx, axisStep_minus_iff hy, axisStep_zero_iff hz]; rfl
+  · rw [t40, t41, t42, axisStep_zero_iff hx, axisStep_zero_iff hy, axisStep_plus_iff hz]; rfl
+  · rw [t50, t51, t52, axisStep_zero_iff hx, axisStep_zero_iff hy, axisStep_minus_iff hz]; rfl
+
+theorem exists_lt_six (P : Nat → Prop) : (∃ n < 6, P n) ↔ P 0 ∨ P 1 ∨ P 2 ∨ P 3 ∨ P 4 ∨ P 5 := by
+  constructor
+  · rintro ⟨n, hn, h⟩
+    have h6 : n = 0 ∨ n = 1 ∨ n = 2 ∨ n = 3 ∨ n = 4 ∨ n = 5 := by omega
+    rcases h6 with rfl | rfl | rfl | rfl | rfl | rfl <;> simp [h]
+  · rintro (h | h | h | h | h | h)
+    exacts [⟨0, by omega, h⟩, ⟨1, by omega, h⟩, ⟨2, by omega, h⟩, ⟨3, by omega, h⟩, ⟨4, by omega, h⟩, ⟨5, by omega, h⟩]
+
+theorem seqRes_map_ok {α β} (f : α → Res β) (gf : α → β) : ∀ (l : List α), (∀ a ∈ l, f a = .ok (gf a)) →
+    seqRes (l.map f) = .ok (l.map gf)
+  | [], _ => rfl
+  | a :: rest, h => by
+    simp only [List.map_cons, seqRes, h a (by simp), seqRes_map_ok f gf rest (fun b hb => h b (by simp [hb]))]
 
 end Strengths
